@@ -103,6 +103,31 @@ Theorem C08_lzmax86_roundtrip : forall (c_enc c_dec : bytes -> outcome bytes) x,
 Proof. exact lzmax86_roundtrip_l. Qed.
 Print Assumptions C08_lzmax86_roundtrip.
 
+(* The size field of the FILTERED codec.  LZMAX86.Encode gives the filtered copy to the inner
+   encoder, so the inner encoder's size field speaks of the filtered bytes; the filter keeps the
+   length, hence the 13-byte header of LZMAX86 output carries the length of the original input.
+   General form (any inner encoder that writes the length of what it is given), then the two
+   configurations CompressorFromGUID builds: the Go encoder and the xz program. *)
+Theorem C08_lzmax86_header : forall (c_enc : bytes -> outcome bytes) x e,
+  (forall y r, zlen y = zlen x -> c_enc y = Ok r ->
+     lzma_header_len <= zlen r /\ rd lzma_size_off 8 r = zlen y) ->
+  lzmax86_encode c_enc x = Ok e ->
+  lzma_header_len <= zlen e /\ rd lzma_size_off 8 e = zlen x.
+Proof. exact lzmax86_header_l. Qed.
+Print Assumptions C08_lzmax86_header.
+
+Theorem C08_lzmax86_lzma_header : forall (lz_run : bool -> bytes -> outcome bytes) x e,
+  zlen x < 2^64 -> lzmax86_encode (lzma_encode lz_run) x = Ok e ->
+  lzma_header_len <= zlen e /\ rd lzma_size_off 8 e = zlen x.
+Proof. exact lzmax86_lzma_header_l. Qed.
+Print Assumptions C08_lzmax86_lzma_header.
+
+Theorem C08_lzmax86_syslzma_header : forall (xz_run : bytes -> outcome bytes) x e,
+  zlen x < 2^64 -> lzmax86_encode (syslzma_encode xz_run) x = Ok e ->
+  lzma_header_len <= zlen e /\ rd lzma_size_off 8 e = zlen x.
+Proof. exact lzmax86_syslzma_header_l. Qed.
+Print Assumptions C08_lzmax86_syslzma_header.
+
 (* ---- histories of calls ---- *)
 
 (* In the model every Encode/Decode is a function of its argument: in any history of
@@ -153,6 +178,14 @@ Example ex_lzma_header :
   lzma_encode (fun _ _ => Ok raw) ex_code =
     Ok [93; 0; 0; 0; 1; 41; 0; 0; 0; 0; 0; 0; 0; 0; 1; 2].
 Proof. vm_compute. reflexivity. Qed.
+
+(* the filtered codec over the Go encoder: header size = length of the unfiltered input (41),
+   although the bytes handed to the inner encoder differ from the input *)
+Example ex_lzmax86_header :
+  let raw := [93; 0; 0; 0; 1; 255; 255; 255; 255; 255; 255; 255; 255; 0; 1; 2] in
+  lzmax86_encode (lzma_encode (fun _ _ => Ok raw)) ex_code =
+    Ok [93; 0; 0; 0; 1; 41; 0; 0; 0; 0; 0; 0; 0; 0; 1; 2] /\ zlen ex_code = 41.
+Proof. vm_compute. split; reflexivity. Qed.
 
 Example ex_history :
   call_history (lzmax86_encode (fun x => Ok x)) [ex_code; []; ex_code] =
